@@ -122,7 +122,7 @@ def extract_default(
     for idx, ch in enumerate(sub_l):
         if (
             ch == "."
-            and (idx == (sub_l_len - 1) or not (sub_l[idx + 1]).isdigit())
+            and (idx == (sub_l_len - 1) or sub_l[idx + 1].isspace())
             and not sum(par.values())
         ):
             break
